@@ -561,7 +561,7 @@ def run(ctx: Ctx):
                 "huge+tiny, scaling by 2^k (objective scales); A caller's graph unchanged after every call, every 4th case called again after "
                 "another call, every 8th one graph object through (s,t),(t,s),(s,t); A2 in-place edits of the caller's graph between calls (replace / append / "
                 "delete an arc, new key, swap capacities; min_cost_flow or max_flow(t,s) on the same object in between) compared with a fresh copy; "
-                "W work volume: spine/hub unit networks with 130..10^4 (thorough 10^5) augmentations, fans, 10^4-node paths, 10^5-neighbour stars "
+                "W work volume: spine/hub unit networks with 130..10^4 (thorough 4*10^4) augmentations, fans, 10^4-node paths, 10^5-neighbour stars "
                 "(coverage.work_volume_max, histogram work_crossed); O no options; X floats are outside the quantifier (integer capacities); H events as above; "
                 "non-trivial = maximum flow >= 1 reached with >= 2 augmentations or any event e1-e5; distinct = canonical JSON of the case. "
                 "Histogram `event` counts cases per event, reverse_arc_used cases where an augmentation cancelled flow (reference port).")
@@ -642,11 +642,12 @@ def run(ctx: Ctx):
         add("big", [c])
 
     # W: work volume - many iterations of one internal loop at moderate size, answer by construction.  Quick crosses 2^7, 2^10,
-    # 2^11, 2^12 and 10^4 augmentations, 10^4 pops / path length and 10^5 pops / neighbours of one node; thorough goes further
+    # 2^11, 2^12 and 10^4 augmentations, 10^4 pops / path length and 10^5 pops / neighbours of one node; thorough goes to 4*10^4
+    # augmentations (10^5 costs ~3 min on an idle machine with this BFS: every augmentation re-scans spine + hub) and 2^20 neighbours
     work = [("augmentations", 130), ("augmentations", 1030), ("augmentations", 2060), ("augmentations", 4100), ("augmentations", 10010),
             ("augmentations_fan", 1100), ("bfs_pops_path", 10000), ("bfs_pops_star", 100000)]
     if thorough:
-        work += [("augmentations", 30000), ("augmentations", 100100), ("augmentations_fan", 2049), ("augmentations_fan", 4097), ("bfs_pops_path", 20000),
+        work += [("augmentations", 30000), ("augmentations", 40000), ("augmentations_fan", 2049), ("augmentations_fan", 4097), ("bfs_pops_path", 20000),
                  ("bfs_pops_star", 2 ** 20 + 2)]
     for loop, target in work:
         sd = rng.getrandbits(48)
@@ -665,7 +666,7 @@ def run(ctx: Ctx):
             ctx.notes.append(f"stopped after 3 violations: {len(cases) - k} generated cases not run")
             break
         kind = kinds[k]
-        out = run_impl(case, timeout=600.0 if kind == "work" else 5.0)
+        out = run_impl(case, timeout=1200.0 if "expected" in case else 5.0)   # large instances: generous guard, the machine may be loaded
         ctx.evaluations += 1
         bad = oracle(case, out)
         var = case.get("variant") or {}
@@ -769,6 +770,28 @@ def run(ctx: Ctx):
             ctx.violation(f"max_flow: {bad}"[:1500], {"kind": "maxflow", **edited, "edited_from": base_case,
                                                       "call_on_fresh_copy": f"max_flow({g_!r}, {s_!r}, {t_!r})"[:3000]})
 
+    # X (POLICY_X): float / non-finite capacities are outside the quantifier (non-negative INTEGER capacities): observation only -
+    # the call may return anything, raise or be cut by the guard; nothing here is a violation
+    ctx.notes.append("observation_only: capacities that are floats (33.0, -0.0), inf, nan or 1e308 are outside the property (integer capacities); "
+                     "a few such calls are made and their outcomes counted, never judged")
+    for i in range(ctx.budget(10, 60)):
+        mode = ("integral_float", "neg_zero", "inf", "nan", "1e308")[i % 5]
+        oc = json.loads(json.dumps({k2: v2 for k2, v2 in rng.choice(pool).items() if k2 in ("graph", "source", "sink")}))
+        arcs_ = [e for _, adj in oc["graph"] for e in adj]
+        if not arcs_:
+            continue
+        if mode == "integral_float":
+            for e in arcs_:
+                e[1] = float(e[1])
+        else:
+            rng.choice(arcs_)[1] = {"neg_zero": -0.0, "inf": float("inf"), "nan": float("nan"), "1e308": 1e308}[mode]
+        oout = run_impl(oc, timeout=2.0)
+        tag = oout[0]
+        if mode == "integral_float" and oout[0] == "ok":
+            iout = run_impl({**oc, "graph": [[u, [[e[0], int(e[1])] + e[2:] for e in adj]] for u, adj in oc["graph"]]})
+            tag = "equals_int_run" if iout[:4] == oout[:4] else "differs_from_int_run"
+        ctx.count("observation_only", f"{mode}:{tag}")
+
     # source == sink: the code does not return; the model says None (fuel) - keep the correspondence honest
     deg = {"graph": [["s", [["a", 1]]], ["a", [["s", 1]]]], "source": "s", "sink": "s"}
     dout = run_impl(deg, timeout=1.0)
@@ -831,7 +854,7 @@ def replay(obj):
         print("replay has no input graph:", obj.get("unchecked") or obj.get("what"))
         return 1
     case = {k: obj[k] for k in ("graph", "source", "sink", "variant", "expected", "big") if k in obj}
-    out = run_impl(case)
+    out = run_impl(case, timeout=1200.0 if "expected" in case else 5.0)
     bad = oracle(case, out)
     g, s, t, _ = SH.materialize(case)
     print(("call: max_flow(%r, %r, %r)" % (g, s, t))[:4000])
